@@ -28,7 +28,8 @@ impl Check for C02 {
             max_entries: tier.pick(40, 100),
             bulk_n: tier.pick(400, 3000),
             big_values: false,
-            rollback: false,
+            rollback: 0,
+            rollback_weight: 0,
             reopen_weight: 10,
             overlay_weight: 20,
             witness_weight: 0.0,
